@@ -144,7 +144,8 @@ def run(params, chooser):
 
 def requrl(q):
     host = q['headers'].get('host', q['hostname'])
-    return crawlref.canon(None, 'http://%s%s' % (host, q['target']))
+    scheme = 'https' if q.get('port') == 443 else 'http'
+    return crawlref.canon(None, '%s://%s%s' % (scheme, host, q['target']))
 
 
 def judge(site, starts, ro, conc, out):
